@@ -77,6 +77,8 @@ func (e *Engine) accessorParams(fn *ssa.Function, gds []guardDecl) map[int]strin
 	}
 	locked := map[int]bool{} // params whose mutex fn locks itself
 	touched := map[int]string{}
+	foreignTouched := map[string]bool{} // "LT.lock" of foreign-guarded fields fn touches
+	foreignLocked := map[string]bool{}  // foreign locks whose address fn takes (it locks them itself)
 	for _, b := range fn.Blocks {
 		for _, ins := range b.Instrs {
 			switch x := ins.(type) {
@@ -88,6 +90,15 @@ func (e *Engine) accessorParams(fn *ssa.Function, gds []guardDecl) map[int]strin
 				}
 				fname := st.Field(x.Field).Name()
 				for _, gd := range gds {
+					if lt, lf := e.foreignLock(gd.Decl); lt != nil {
+						if types.Identical(lt, ot) && fname == lf {
+							foreignLocked[gd.Lock] = true
+						}
+						if types.Identical(gd.T, ot) && fname == gd.Field {
+							foreignTouched[gd.Lock] = true
+						}
+						continue
+					}
 					if !types.Identical(gd.T, ot) {
 						continue
 					}
@@ -111,7 +122,33 @@ func (e *Engine) accessorParams(fn *ssa.Function, gds []guardDecl) map[int]strin
 			out[pi] = l
 		}
 	}
+	var fl []string
+	for l := range foreignTouched {
+		if !foreignLocked[l] {
+			fl = append(fl, l)
+		}
+	}
+	sort.Strings(fl)
+	for i, l := range fl {
+		// negative pseudo-indices: the lock belongs to another object than any parameter
+		out[-1-i] = l
+	}
 	return out
+}
+
+// foreignLock: `guarded T.f by LT.lock` — the field is protected by the mutex of an object of another type (the
+// process has one such object, or every such object's lock protects all T). The obligation is that *some* LT.lock is
+// held by the accessing activation.
+func (e *Engine) foreignLock(g *GuardedDecl) (types.Type, string) {
+	dot := strings.LastIndex(g.Lock, ".")
+	if g.Mode != "lock" || g.Type == "global" || dot < 0 {
+		return nil, ""
+	}
+	t := e.lookupType(g.Pkg, g.Lock[:dot])
+	if t == nil {
+		return nil, ""
+	}
+	return t, g.Lock[dot+1:]
 }
 
 // guardFunctions: the functions that must be verified for the guarded-by property.
@@ -184,7 +221,50 @@ func (e *Engine) guardFunctions() ([]*ssa.Function, map[*ssa.Function]map[int]st
 	// An accessor whose callers cannot all be seen is not trusted to be entered with the lock held: its guarded accesses
 	// are then checked unconditionally.
 	esc := e.escapingFuncs()
+	e.guardIfaceSites = map[*ssa.MakeInterface][]string{}
+	// a synthetic method wrapper around an accessor of foreign-guarded fields is such an accessor itself
+	for fn, ap := range acc {
+		for _, w := range e.escWrapper[fn] {
+			for pi, l := range ap {
+				if pi < 0 {
+					if acc[w] == nil {
+						acc[w] = map[int]string{}
+					}
+					acc[w][pi] = l
+				}
+			}
+		}
+	}
 	for fn := range acc {
+		if sites, ok := e.ifaceOnlyEscape(fn, esc); ok {
+			// the only way fn escapes is as a method of a value handed, as an interface, directly to library calls
+			// (container/heap): the lock is then demanded at those calls
+			foreignOnly := true
+			var locks []string
+			for pi, l := range acc[fn] {
+				if pi >= 0 {
+					foreignOnly = false
+				}
+				locks = append(locks, l)
+			}
+			if foreignOnly {
+				sort.Strings(locks)
+				for _, mi := range sites {
+					for _, l := range locks {
+						dup := false
+						for _, have := range e.guardIfaceSites[mi] {
+							dup = dup || have == l
+						}
+						if !dup {
+							e.guardIfaceSites[mi] = append(e.guardIfaceSites[mi], l)
+						}
+					}
+					need[mi.Parent()] = true
+				}
+				e.guardAssume = append(e.guardAssume, "library functions handed a value whose method "+relName(fn)+" touches guarded fields call that method only before they return (container/heap)")
+				continue
+			}
+		}
 		if esc[fn] != "" {
 			e.guardNotes = append(e.guardNotes, relName(fn)+" touches guarded fields without locking and "+esc[fn]+": no lock is assumed on entry")
 			delete(acc, fn)
@@ -288,6 +368,8 @@ func (e *Engine) VerifyGuards(fn *ssa.Function, acc map[*ssa.Function]map[int]st
 // receiver type is converted to an interface that declares the method.
 func (e *Engine) escapingFuncs() map[*ssa.Function]string {
 	out := map[*ssa.Function]string{}
+	e.escIface = map[*ssa.Function][]*ssa.MakeInterface{}
+	e.escWrapper = map[*ssa.Function][]*ssa.Function{}
 	reflNames := map[string]bool{"String": true, "Error": true, "Format": true, "GoString": true, "MarshalJSON": true, "MarshalText": true, "UnmarshalJSON": true, "UnmarshalText": true, "Write": true, "Read": true, "Close": true}
 	for fn := range e.allFuncs {
 		if len(fn.Blocks) == 0 {
@@ -307,7 +389,14 @@ func (e *Engine) escapingFuncs() map[*ssa.Function]string {
 				}
 				if synthetic {
 					if cf, ok := callee.(*ssa.Function); ok {
-						out[cf] = "is reachable through the synthetic " + fn.Synthetic
+						if strings.HasPrefix(fn.Synthetic, "wrapper") {
+							e.escWrapper[cf] = append(e.escWrapper[cf], fn)
+							if out[cf] == "" {
+								out[cf] = "\x00wrapper"
+							}
+						} else {
+							out[cf] = "is reachable through the synthetic " + fn.Synthetic
+						}
 					}
 				}
 				for _, op := range ins.Operands(nil) {
@@ -336,7 +425,11 @@ func (e *Engine) escapingFuncs() map[*ssa.Function]string {
 						}
 						if dyn {
 							if mf := e.prog.MethodValue(sel); mf != nil {
-								out[mf] = "is reachable by dynamic dispatch (its receiver is converted to " + types.TypeString(mi.Type(), nil) + " in " + relName(fn) + ")"
+								e.escIface[mf] = append(e.escIface[mf], mi)
+								if out[mf] != "" && !strings.HasPrefix(out[mf], "\x00") {
+									continue
+								}
+								out[mf] = "\x00is reachable by dynamic dispatch (its receiver is converted to " + types.TypeString(mi.Type(), nil) + " in " + relName(fn) + ")"
 							}
 						}
 					}
@@ -344,5 +437,54 @@ func (e *Engine) escapingFuncs() map[*ssa.Function]string {
 			}
 		}
 	}
+	// internal markers: "\x00..." = escapes only through interface conversions / wrappers (refined by ifaceOnlyEscape)
+	e.escSoft = map[*ssa.Function]bool{}
+	for f, r := range out {
+		if strings.HasPrefix(r, "\x00") {
+			e.escSoft[f] = true
+			if r == "\x00wrapper" {
+				out[f] = "is reachable through a synthetic method wrapper"
+			} else {
+				out[f] = r[1:]
+			}
+		}
+	}
 	return out
+}
+
+// ifaceOnlyEscape: fn escapes only because its receiver type is converted to an interface (directly or through the
+// synthetic pointer-receiver wrapper) and every such conversion feeds nothing but arguments of static calls to
+// functions outside the repository. Returns those conversion sites.
+func (e *Engine) ifaceOnlyEscape(fn *ssa.Function, esc map[*ssa.Function]string) ([]*ssa.MakeInterface, bool) {
+	if esc[fn] == "" || !e.escSoft[fn] {
+		return nil, false
+	}
+	sites := append([]*ssa.MakeInterface(nil), e.escIface[fn]...)
+	for _, w := range e.escWrapper[fn] {
+		if esc[w] != "" && !e.escSoft[w] {
+			return nil, false
+		}
+		sites = append(sites, e.escIface[w]...)
+	}
+	if len(sites) == 0 {
+		return nil, false
+	}
+	for _, mi := range sites {
+		if mi.Parent() == nil || !e.inRepo(mi.Parent()) || mi.Referrers() == nil {
+			return nil, false
+		}
+		for _, r := range *mi.Referrers() {
+			switch x := r.(type) {
+			case *ssa.DebugRef:
+			case *ssa.Call:
+				callee := x.Call.StaticCallee()
+				if callee == nil || e.inRepo(callee) || x.Call.Value == ssa.Value(mi) {
+					return nil, false
+				}
+			default:
+				return nil, false
+			}
+		}
+	}
+	return sites, true
 }
